@@ -87,7 +87,10 @@ class C01(HistoryProperty):
             ]
             spec["roots"] = spec["roots"] + [f"z{k0 + 6}"]
             routed = (f"z{k0 + 6}", good)
-        ops = gen_history(rng, cfg, spec)
+        dg = U.DictGen(rng, cfg)
+        # (reference chains through a CONTAINER - key -> '{L}' -> ['x{C}', ...] -> C - a little more often than elsewhere)
+        dg.MUTATIONS = list(dg.MUTATIONS) + ["listref", "listref", "change"]
+        ops = gen_history(rng, cfg, spec, dictgen=dg)
         if routed:
             other = rng.choice([x for x in ["a", "b", 1, 2, "zzz"] if x != routed[1]])
             base = {k: v for k, v in rng.choice(ops)["o"].items() if k not in ("B", "M")} if ops and rng.random() < 0.5 else {}
